@@ -162,6 +162,23 @@ func (lm *levelManager) build() error {
 	lm.cache = newCache(lm.opt)
 	var maxFID uint64
 	var missing []manifest.FileMeta
+	// An SST the manifest does not reference is the leftover of a flush or compaction that
+	// crashed before its manifest edit. Its id is handed out again after the restart, and a
+	// table built under that id would adopt the stale file: remove it first.
+	referenced := make(map[uint64]struct{})
+	for _, files := range version.Levels {
+		for _, meta := range files {
+			referenced[meta.FileID] = struct{}{}
+		}
+	}
+	for id := range utils.LoadIDMap(fs, lm.opt.WorkDir) {
+		if _, ok := referenced[id]; ok {
+			continue
+		}
+		if err := fs.Remove(utils.FileNameSSTable(lm.opt.WorkDir, id)); err != nil && !os.IsNotExist(err) {
+			return err
+		}
+	}
 	for level, files := range version.Levels {
 		for _, meta := range files {
 			fileName := utils.FileNameSSTable(lm.opt.WorkDir, meta.FileID)
